@@ -685,12 +685,14 @@ class System(BaseModel, Serializable):
                 break
 
             curr_error = train_result['added_error']
+            self.train_history.append(train_result)  # record the step now: monitoring below may be interrupted
+            level = self.refine_level - 1  # iteration count before this step (as used by the monitoring intervals)
 
             # Plot progress of error indicator
             if self.root_dir is not None:
                 err_record.append(curr_error)
 
-                if plot_interval > 0 and self.refine_level % plot_interval == 0:
+                if plot_interval > 0 and level % plot_interval == 0:
                     err_ax.clear(); err_ax.set_yscale('log'); err_ax.grid()
                     err_ax.plot(err_record, '-k')
                     err_ax.set_xlabel('Iteration'); err_ax.set_ylabel('Relative error indicator')
@@ -698,14 +700,14 @@ class System(BaseModel, Serializable):
 
             # Save performance on a test set
             if xtest is not None and ytest is not None:
-                perf = self.test_set_performance(xtest, ytest) if self.refine_level >= start_test_check else (
+                perf = self.test_set_performance(xtest, ytest) if level >= start_test_check else (
                     {str(var): np.nan for var in ytest})  # don't compute if components are uninitialized
                 train_result['test_error'] = perf.copy()
 
                 if self.root_dir is not None:
                     test_record = np.vstack((test_record, np.array([perf[var] for var in targets[:num_plot]])))
 
-                    if plot_interval > 0 and self.refine_level % plot_interval == 0:
+                    if plot_interval > 0 and level % plot_interval == 0:
                         for i in range(num_plot):
                             t_ax[0, i].clear(); t_ax[0, i].set_yscale('log'); t_ax[0, i].grid()
                             t_ax[0, i].plot(test_record[:, i], '-k')
@@ -714,7 +716,6 @@ class System(BaseModel, Serializable):
                             t_ax[0, i].set_ylabel('Test set relative error' if i==0 else '')
                         t_fig.savefig(str(Path(self.root_dir) / 'test_set_error.pdf'),format='pdf',bbox_inches='tight')
 
-            self.train_history.append(train_result)
             if self.root_dir is not None and save_interval > 0 and self.refine_level % save_interval == 0:
                 iter_name = f'{self.name}_iter{self.refine_level}'
                 if not (pth := self.root_dir / 'surrogates' / iter_name).is_dir():
